@@ -31,7 +31,7 @@ func (f *faults) err(id string) error {
 }
 
 // source lines of the failing expressions in c10.templ (first line, last line)
-var exprLines = map[string][2]int{"x1": {5, 5}, "x2": {6, 6}, "x3": {25, 25}, "x4": {12, 14}, "x6": {18, 18}, "x7": {18, 18}, "x8": {19, 19}}
+var exprLines = map[string][2]int{"x1": {5, 5}, "x2": {6, 6}, "x3": {26, 26}, "x4": {12, 14}, "x6": {18, 18}, "x7": {18, 18}, "x8": {19, 19}}
 
 // faultWriter accepts failAt bytes in total, then fails in the chosen way.
 type faultWriter struct {
@@ -91,19 +91,63 @@ func symItems() []string {
 	return items
 }
 
+// wantDoc is the full document of Page, written down independently of the generator.
+func wantDoc(items []string, kid bool) string {
+	d := `<div class="a">vx1 <span title="vx2">t</span><p>vx3</p>`
+	for _, it := range items {
+		d += "<i>" + escRef(it) + "</i>"
+	}
+	d += `<b>vx4</b><raw/><q>j1</q><q>j2</q><u>m</u> <s style="vx8;">k</s> <em>end</em>`
+	if kid {
+		d += "<q>kid</q>"
+	}
+	return d + "</div>"
+}
+
+func escRef(s string) string {
+	out := make([]byte, 0, len(s)+8)
+	for i := 0; i < len(s); i++ {
+		switch s[i] {
+		case '&':
+			out = append(out, "&amp;"...)
+		case '<':
+			out = append(out, "&lt;"...)
+		case '>':
+			out = append(out, "&gt;"...)
+		case '"':
+			out = append(out, "&#34;"...)
+		case '\'':
+			out = append(out, "&#39;"...)
+		default:
+			out = append(out, s[i])
+		}
+	}
+	return string(out)
+}
+
 func VerifC10Faults() {
-	templruntime.DefaultBufferSize = []int{4, 16, 4096}[symChoose(3)]
+	templruntime.DefaultBufferSize = []int{16, 4096, 4}[symChoose(symParam("BUFS"))]
 	items := symItems()
-	// the full document: a fault-free render
+	// the outermost component may be handed children from Go code
+	kid := symBool("kid")
+	mkctx := func() context.Context { // children are handed over per render
+		if kid {
+			return templ.WithChildren(context.Background(), Leaf("kid"))
+		}
+		return context.Background()
+	}
+	// the full document: a fault-free render, which must equal the document written down by hand
 	full := &faultWriter{failAt: 1 << 30}
-	err0 := Page(&faults{}, items).Render(context.Background(), full)
+	err0 := Page(&faults{}, items).Render(mkctx(), full)
 	symAssert(err0 == nil && !full.hit, "fault-free render returns nil")
 	D := full.got
 	symObserve("D", string(D))
+	symAssertEq(string(D), wantDoc(items, kid), "the fault-free render is the full document, in order")
 
 	kind := symChoose(4)
 	fail := ""
-	ctx := context.Background()
+	ctx := mkctx()
+	ownBuffer := false
 	w := &faultWriter{failAt: 1 << 30}
 	switch kind {
 	case 0: // writer failure at an arbitrary offset
@@ -112,14 +156,24 @@ func VerifC10Faults() {
 		w.mode = symChoose(3)
 	case 1: // one expression / nested component / raw component errs
 		fail = []string{"x1", "x2", "x3", "x4", "x5", "x6", "x7", "x8"}[symChoose(8)]
-	case 2: // context already cancelled
+	case 2: // context already cancelled; the caller may render into a buffer of its own
 		ctx = cancelledCtx{ctx}
+		ownBuffer = symBool("ownBuffer")
 	case 3: // writer failure and expression error together
 		w.failAt = symInt("failAt")
 		symAssume(w.failAt >= 0)
 		fail = []string{"x1", "x4"}[symChoose(2)]
 	}
-	err := Page(&faults{fail: fail}, items).Render(ctx, w)
+	var err error
+	if ownBuffer {
+		buf, _ := templruntime.GetBuffer(w)
+		err = Page(&faults{fail: fail}, items).Render(ctx, buf)
+		if rerr := templruntime.ReleaseBuffer(buf); err == nil {
+			err = rerr
+		}
+	} else {
+		err = Page(&faults{fail: fail}, items).Render(ctx, w)
+	}
 	symObserve("got", string(w.got))
 	symObserveBool("errnil", err == nil)
 	if err == nil {
@@ -158,12 +212,12 @@ func VerifC10Faults() {
 	// a failed (or successful) render never alters a later one, also through the pools:
 	// first into the very same writer value, now healthy again ...
 	w.failAt, w.mode, w.hit, w.got = 1<<30, 0, false, nil
-	errSame := Page(&faults{}, items).Render(context.Background(), w)
+	errSame := Page(&faults{}, items).Render(mkctx(), w)
 	symAssert(errSame == nil, "a later render into the same (recovered) writer succeeds")
 	symAssert(string(w.got) == string(D), "a later render into the same writer yields the full document")
 	// ... then into a fresh one
 	again := &faultWriter{failAt: 1 << 30}
-	err2 := Page(&faults{}, items).Render(context.Background(), again)
+	err2 := Page(&faults{}, items).Render(mkctx(), again)
 	symAssert(err2 == nil, "a later render succeeds")
 	symAssert(string(again.got) == string(D), "a later render yields the full document")
 }
